@@ -85,7 +85,11 @@ def attack_once(cipher, fn, attack, key, meta_in, traces, guesses, words, bs, kw
     import scared
     mod = getattr(scared, cipher).selection_functions.encrypt
     tag = 'ciphertext' if (fn.startswith('Last') or fn.endswith('LastRounds')) else 'plaintext'
-    ths = scared.traces.read_ths_from_ram(samples=present(traces, fn, attack), **{tag: np.array(meta_in, dtype='uint8'), 'key': np.array([key] * len(meta_in), dtype='uint8')})
+    # the trace set also carries unrelated metadata, among them a field literally named `data` (acquisition payload) and the field the function does NOT use
+    arr_in = np.array(meta_in, dtype='uint8')
+    decoy = (arr_in.astype('int64') * 13 + 101).astype('uint8')
+    ths = scared.traces.read_ths_from_ram(samples=present(traces, fn, attack), **{tag: arr_in, 'key': np.array([key] * len(meta_in), dtype='uint8'), 'data': decoy,
+                                                                               ('plaintext' if tag == 'ciphertext' else 'ciphertext'): decoy[:, ::-1].copy()})
     scared.set_batch_size(bs)
     sfw = getattr(mod, fn)(guesses=np.array(guesses, dtype='uint8'), words=np.array(words, dtype='uint8'))
     hw = scared.HammingWeight()
